@@ -287,6 +287,122 @@ scalar_left!(sl_isize, isize);
 scalar_left!(sl_f32, f32);
 scalar_left!(sl_f64, f64);
 
+
+// ---- integers over their whole range: the outcome (value, or the overflow / division panic of this build) of every
+// ---- compound operator must be the outcome of the primitive operator applied per component ------------------------
+
+/// outcome of a computation that may panic: the value's signature, or None
+fn outcome<R: Sig>(f: impl FnOnce() -> R) -> Option<Vec<u64>> {
+    catches(f).ok().map(|r| sig(&r))
+}
+macro_rules! same_outcome {
+    ($prim:expr, $comp:expr, $sig:expr, $($what:tt)+) => {{
+        let e = outcome(|| $prim);
+        let g = outcome(|| $comp);
+        if e != g {
+            return Outcome::Fail { sig: $sig, msg: format!("{}: compound operator gives {:?}, the primitive operator per component gives {:?} (None = panic)", format!($($what)+), g, e) };
+        }
+        e.is_none()
+    }};
+}
+macro_rules! wide_one {
+    ($d:ident, $w:ident, $S:ty, $panics:ident, $total:ident, $T:ident, $P:ident, [$($f:ident),+]) => {{
+        let d = &mut *$d;
+        let w = &$w;
+        macro_rules! t {
+            ($e:expr) => {{
+                $total += 1;
+                if $e { $panics += 1; }
+            }};
+        }
+                    let x = $T { $($f: w(d)),+ };
+                    let y = $T { $($f: w(d)),+ };
+                    let p = $P { $($f: w(d)),+ };
+                    let q = $P { $($f: w(d)),+ };
+                    let k = w(d);
+                    let n = stringify!($T);
+                    t!(same_outcome!($T { $($f: x.$f + y.$f),+ }, x + y, "overflow-add", "{}<{}> + ", n, stringify!($S)));
+                    t!(same_outcome!($T { $($f: x.$f + y.$f),+ }, &x + &y, "overflow-add", "&{}<{}> + &", n, stringify!($S)));
+                    t!(same_outcome!($T { $($f: x.$f - y.$f),+ }, x - y, "overflow-sub", "{}<{}> - ", n, stringify!($S)));
+                    t!(same_outcome!($T { $($f: x.$f * k),+ }, x * k, "overflow-mul-scalar", "{}<{}> * scalar", n, stringify!($S)));
+                    t!(same_outcome!($T { $($f: x.$f / k),+ }, x / k, "overflow-div-scalar", "{}<{}> / scalar", n, stringify!($S)));
+                    t!(same_outcome!($T { $($f: x.$f % k),+ }, x % k, "overflow-rem-scalar", "{}<{}> % scalar", n, stringify!($S)));
+                    t!(same_outcome!($T { $($f: k * x.$f),+ }, k * x, "overflow-scalar-left-mul", "{} * {}", stringify!($S), n));
+                    t!(same_outcome!($T { $($f: k * x.$f),+ }, k * &x, "overflow-scalar-left-mul", "{} * &{}", stringify!($S), n));
+                    t!(same_outcome!($T { $($f: k / x.$f),+ }, k / x, "overflow-scalar-left-div", "{} / {}", stringify!($S), n));
+                    t!(same_outcome!($T { $($f: k % x.$f),+ }, k % x, "overflow-scalar-left-rem", "{} % {}", stringify!($S), n));
+                    t!(same_outcome!($T { $($f: x.$f + y.$f),+ }, { let mut m = x; m += y; m }, "overflow-add_assign", "{}<{}> +=", n, stringify!($S)));
+                    t!(same_outcome!($T { $($f: x.$f - y.$f),+ }, { let mut m = x; m -= y; m }, "overflow-sub_assign", "{}<{}> -=", n, stringify!($S)));
+                    t!(same_outcome!($T { $($f: x.$f * k),+ }, { let mut m = x; m *= k; m }, "overflow-mul_assign", "{}<{}> *=", n, stringify!($S)));
+                    t!(same_outcome!($T { $($f: x.$f / k),+ }, { let mut m = x; m /= k; m }, "overflow-div_assign", "{}<{}> /=", n, stringify!($S)));
+                    t!(same_outcome!($T { $($f: x.$f % k),+ }, { let mut m = x; m %= k; m }, "overflow-rem_assign", "{}<{}> %=", n, stringify!($S)));
+                    t!(same_outcome!($T { $($f: x.$f * y.$f),+ }, x.mul_element_wise(y), "overflow-mul_element_wise", "{}<{}>::mul_element_wise", n, stringify!($S)));
+                    t!(same_outcome!($T { $($f: x.$f + k),+ }, x.add_element_wise(k), "overflow-add_element_wise-scalar", "{}<{}>::add_element_wise(scalar)", n, stringify!($S)));
+                    // points
+                    let pn = stringify!($P);
+                    t!(same_outcome!($P { $($f: p.$f + x.$f),+ }, p + x, "overflow-point-add", "{}<{}> + vector", pn, stringify!($S)));
+                    t!(same_outcome!($P { $($f: p.$f - x.$f),+ }, p - x, "overflow-point-sub", "{}<{}> - vector", pn, stringify!($S)));
+                    t!(same_outcome!($T { $($f: p.$f - q.$f),+ }, p - q, "overflow-point-diff", "{}<{}> - point", pn, stringify!($S)));
+                    t!(same_outcome!($P { $($f: p.$f * k),+ }, p * k, "overflow-point-mul-scalar", "{}<{}> * scalar", pn, stringify!($S)));
+                    t!(same_outcome!($P { $($f: k * p.$f),+ }, k * p, "overflow-point-scalar-left-mul", "{} * {}", stringify!($S), pn));
+                    t!(same_outcome!($P { $($f: p.$f + x.$f),+ }, { let mut m = p; m += x; m }, "overflow-point-add_assign", "{}<{}> += vector", pn, stringify!($S)));
+                }};
+}
+macro_rules! wide_int {
+    ($fname:ident, $S:ty, $signed:expr) => {
+        fn $fname(d: &mut Draw) -> Outcome {
+            let w = |d: &mut Draw| -> $S {
+                match d.int(0, 5) {
+                    0 => d.bits64() as $S,
+                    1 => d.pick(&[<$S>::MIN, <$S>::MAX, <$S>::MIN + 1, <$S>::MAX - 1, 0, 1, 2, <$S>::MAX / 2, <$S>::MAX / 2 + 1]),
+                    2 => {
+                        // around the square root of MAX: products just inside / just outside the range
+                        let r = (<$S>::MAX as f64).sqrt() as i64;
+                        (r + d.int(-3, 3)) as $S
+                    }
+                    3 if $signed => (0 as $S).wrapping_sub(d.int(0, 3) as $S),
+                    _ => <$S as Prim>::g(d),
+                }
+            };
+            let mut panics = 0u32;
+            let mut total = 0u32;
+            macro_rules! t {
+                ($e:expr) => {{
+                    total += 1;
+                    if $e { panics += 1; }
+                }};
+            }
+            wide_one!(d, w, $S, panics, total, Vector1, Point1, [x]);
+            wide_one!(d, w, $S, panics, total, Vector2, Point2, [x, y]);
+            wide_one!(d, w, $S, panics, total, Vector3, Point3, [x, y, z]);
+            {
+                // Vector4 has no point type: reuse Point3 for the point clauses
+                let x = Vector4 { x: w(d), y: w(d), z: w(d), w: w(d) };
+                let y = Vector4 { x: w(d), y: w(d), z: w(d), w: w(d) };
+                let k = w(d);
+                t!(same_outcome!(Vector4 { x: x.x + y.x, y: x.y + y.y, z: x.z + y.z, w: x.w + y.w }, x + y, "overflow-add", "Vector4<{}> +", stringify!($S)));
+                t!(same_outcome!(Vector4 { x: x.x - y.x, y: x.y - y.y, z: x.z - y.z, w: x.w - y.w }, x - y, "overflow-sub", "Vector4<{}> -", stringify!($S)));
+                t!(same_outcome!(Vector4 { x: x.x * k, y: x.y * k, z: x.z * k, w: x.w * k }, x * k, "overflow-mul-scalar", "Vector4<{}> * scalar", stringify!($S)));
+                t!(same_outcome!(Vector4 { x: k * x.x, y: k * x.y, z: k * x.z, w: k * x.w }, k * x, "overflow-scalar-left-mul", "{} * Vector4", stringify!($S)));
+                t!(same_outcome!(Vector4 { x: k / x.x, y: k / x.y, z: k / x.z, w: k / x.w }, k / x, "overflow-scalar-left-div", "{} / Vector4", stringify!($S)));
+                t!(same_outcome!(Vector4 { x: x.x * k, y: x.y * k, z: x.z * k, w: x.w * k }, { let mut m = x; m *= k; m }, "overflow-mul_assign", "Vector4<{}> *=", stringify!($S)));
+            }
+            let cls = if panics == 0 { "no-panic" } else if panics == total { "all-panic" } else { "some-panic" };
+            pass(cls, panics > 0 && panics < total)
+        }
+    };
+}
+wide_int!(wi_u8, u8, false);
+wide_int!(wi_u16, u16, false);
+wide_int!(wi_u32, u32, false);
+wide_int!(wi_u64, u64, false);
+wide_int!(wi_usize, usize, false);
+wide_int!(wi_i8, i8, true);
+wide_int!(wi_i16, i16, true);
+wide_int!(wi_i32, i32, true);
+wide_int!(wi_i64, i64, true);
+wide_int!(wi_isize, isize, true);
+
 // ---- float-only compound types: matrices, quaternions, angles, bases ------------------------------------------
 
 macro_rules! matrix_forms {
@@ -661,6 +777,22 @@ pub fn property() -> Property {
             add!(concat!("scalar_left-", $tag), $tag, $f, 1500, 100_000, 640, &[], R);
         };
     }
+    macro_rules! wi {
+        ($f:ident, $tag:expr) => {
+            add!(concat!("int_overflow-", $tag), $tag, $f, 400, 30_000, 640, &[("some-panic", 300)],
+                "integers over their whole range (random bits, MIN/MAX and neighbours, values around sqrt(MAX)); a case is non-trivial when some but not all of its operator applications overflow");
+        };
+    }
+    wi!(wi_u8, "u8");
+    wi!(wi_u16, "u16");
+    wi!(wi_u32, "u32");
+    wi!(wi_u64, "u64");
+    wi!(wi_usize, "usize");
+    wi!(wi_i8, "i8");
+    wi!(wi_i16, "i16");
+    wi!(wi_i32, "i32");
+    wi!(wi_i64, "i64");
+    wi!(wi_isize, "isize");
     sl!(sl_u8, "u8");
     sl!(sl_u16, "u16");
     sl!(sl_u32, "u32");
